@@ -9,6 +9,10 @@
 
 use std::panic::{self, AssertUnwindSafe};
 
+pub mod frames;
+pub mod gens;
+pub mod port;
+
 #[derive(Clone)]
 pub struct Rng(pub u64);
 
